@@ -343,3 +343,14 @@ rf("rf-handshake-loss-fails-connect-at-once", [
     # allowed alternative for C04: a loss in mid-handshake fails connect() with the reason at once
     (B, "        self._stopKeepalive()\n        # back to IDLE first", "        self._stopKeepalive()\n        pending, self.connReq = getattr(self, 'connReq', None), None\n        if pending is not None and pending.deferred is not None:\n            if pending.alarm.active():\n                pending.alarm.cancel()\n            pending.deferred.errback(reason)\n        # back to IDLE first"),
 ])
+rf("rf-publish-while-connecting-is-held-until-connack", [
+    # allowed alternative for C14/C10: a publish() made before CONNACK is accepted and queued, and goes out at CONNACK
+    (P, "        request.deferred.msgId = request.msgId\n        self._refillPublish(dup=False)\n        return  request.deferred \n",
+        "        request.deferred.msgId = request.msgId\n        if self.state is not self.CONNECTING:\n            self._refillPublish(dup=False)\n        return  request.deferred \n"),
+])
+rf("rf-random-packet-identifiers", [
+    # allowed alternative for C17: identifiers drawn at random among those not in use
+    (F, "from collections import deque\n", "from collections import deque\nimport random as _random\n"),
+    (F, "        for _ in range(65535):\n            self.id = (self.id + 1) % 65536\n            self.id = self.id or 1   # avoid id 0\n            if not self._idInUse(self.id):  # after a wrap-around old requests may still hold it\n                break\n        return self.id\n",
+        "        rng = self.__dict__.setdefault('_rng', _random.Random(20260927))\n        for _ in range(100000):\n            self.id = rng.randint(1, 65535)\n            if not self._idInUse(self.id):\n                break\n        return self.id\n"),
+])
